@@ -30,6 +30,11 @@ pub struct Scenario {
     pub skip_per_mille: u32,
     /// collection schedule for the GC configurations: 0 = between steps only
     pub gc_every: u64,
+    /// per site: indices (into objs ++ prims) of the receivers the site is run against; empty = all.
+    /// A cache holds 4 shapes and turns megamorphic (off, for good) at the fifth, so most sites see
+    /// only a few receivers.
+    #[serde(default)]
+    pub recv: Vec<Vec<u32>>,
 }
 
 const NAMES: &[&str] = &["a", "b", "c", "x", "y", "pa", "pb", "pc", "acc", "m"];
@@ -48,7 +53,8 @@ objs[3].x='o3.x'; objs[4].b='o4.b';
 var dict={}; for (var i=0;i<1100;i++){ dict['t'+i]=i; } for (var i=0;i<1100;i++){ delete dict['t'+i]; } dict.a='dict.a';
 class MyArr extends Array { get acc(){ return 'MyArr.acc:'+this.length; } }
 objs.push(Math, Array.prototype, dict, globalThis, MyArr.from([7,8]));
-function warm(){ var all=objs.concat(prims); for (var i=0;i<sites.length;i++) for (var j=0;j<all.length;j++){ try { sites[i][1](all[j]); } catch(e){} } }
+function receiversOf(i, all){ var r=(typeof recv=='object' && recv[i] && recv[i].length) ? recv[i] : null; return r ? r.map(function(k){ return all[k]; }) : all; }
+function warm(){ var all=objs.concat(prims); for (var i=0;i<sites.length;i++){ var rs=receiversOf(i, all); for (var j=0;j<rs.length;j++){ try { sites[i][1](rs[j]); } catch(e){} } } }
 var prims=[5, 'str', true, 10n, Symbol.iterator];
 "#;
 
@@ -77,17 +83,26 @@ fn site_defs(rng: &mut Rng) -> Vec<String> {
     out
 }
 
-fn gen_op(rng: &mut Rng, site_names: &[&'static str]) -> String {
-    // one mutation in three targets a unique-shape (dictionary-mode) receiver: Math,
-    // Array.prototype, the dictionary object, the global object
-    let o = if rng.chance(1, 3) { format!("objs[{}]", rng.range(12, 15)) } else { format!("objs[{}]", rng.below(17)) };
+fn gen_op(rng: &mut Rng, site_names: &[&'static str], hot: &[u32]) -> String {
+    if rng.chance(1, 14) {
+        return "RESITE".to_string();
+    }
+    // mostly an object that some site is run against; one mutation in four targets a unique-shape
+    // (dictionary-mode) receiver: Math, Array.prototype, the dictionary object, the global object
+    let o = if !hot.is_empty() && rng.chance(1, 2) {
+        format!("objs[{}]", rng.pick(hot))
+    } else if rng.chance(1, 2) {
+        format!("objs[{}]", rng.range(12, 15))
+    } else {
+        format!("objs[{}]", rng.below(17))
+    };
     let p = *rng.pick(&["P0", "P1", "C.prototype", "D.prototype", "Object.prototype", "Array.prototype", "Function.prototype"]);
     let target = if rng.chance(1, 2) { o.clone() } else { p.to_string() };
     // mostly the names that this scenario's access sites actually use
     let nm = if !site_names.is_empty() && rng.chance(3, 4) { *rng.pick(site_names) } else { *rng.pick(NAMES) };
     let g = *rng.pick(GLOBALS);
     let v = rng.below(100);
-    match rng.below(42) {
+    match rng.below(46) {
         0..=2 => format!("{target}.{nm}={v};"),
         3 | 4 => format!("delete {target}.{nm};"),
         5 => format!("Object.defineProperty({target},'{nm}',{{get(){{ return 'getter{v}'; }}, configurable:true, enumerable:true}});"),
@@ -97,8 +112,10 @@ fn gen_op(rng: &mut Rng, site_names: &[&'static str]) -> String {
         9 => format!("{p}.z{v}=1; delete {p}.{nm};"),
         10 => format!("Object.setPrototypeOf({o}, {});", rng.pick(&["P0", "P1", "null", "C.prototype", "D.prototype", "Object.prototype"])),
         11 => format!("Object.{}({target});", rng.pick(&["preventExtensions", "seal", "freeze"])),
-        12 => format!("for (var i=0;i<40;i++) {o}['d'+i]=i; for (var i=0;i<40;i++) delete {o}['d'+i];"),
-        13 => format!("for (var i=0;i<6;i++) sites.forEach(function(s){{ try {{ s[1]({{['u'+i]:1, {nm}:i}}); }} catch(e){{}} }});"),
+        // (loop counters are function-local: a frozen global object makes a global `var i` read-only
+        // and such a loop would never end)
+        12 => format!("(function(){{ for (let i=0;i<40;i++) {o}['d'+i]=i; for (let i=0;i<40;i++) delete {o}['d'+i]; }})();"),
+        13 => format!("(function(){{ for (let i=0;i<6;i++) sites.forEach(function(s){{ try {{ s[1]({{['u'+i]:1, {nm}:i}}); }} catch(e){{}} }}); }})();"),
         14 => format!("{o}.{nm}='shadow{v}';"),
         15 => format!("objs[{}]={{a:1,b:2}};", rng.below(12)),
         16 => format!("objs[{}]=Object.create({});", rng.below(12), rng.pick(&["P0", "P1"])),
@@ -125,6 +142,10 @@ fn gen_op(rng: &mut Rng, site_names: &[&'static str]) -> String {
         38 => format!("warm(); {o}.{nm}='w'; Object.{}({o}); warm();", rng.pick(&["freeze", "seal", "preventExtensions"])),
         39 => format!("{o}.{nm}='rw{v}'; warm(); Object.defineProperty({o},'{nm}',{{writable:false}});"),
         40 => format!("Object.defineProperty({o},'{nm}',{{set(w){{ this._only{v}=w; }}, configurable:true}}); warm(); Object.defineProperty({o},'{nm}',{{get(){{ return 'added-getter{v}'; }}}});"),
+        // one half of an accessor pair removed: the shape need not change, the stored function does
+        42 | 43 => format!("Object.defineProperty({target},'{nm}',{{get(){{ return 'pair{v}'; }}, set(w){{ this._pair{v}=w; }}, configurable:true, enumerable:true}}); warm(); Object.defineProperty({target},'{nm}',{{set: undefined}});"),
+        44 => format!("Object.defineProperty({target},'{nm}',{{get(){{ return 'pair{v}'; }}, set(w){{ this._pair{v}=w; }}, configurable:true, enumerable:true}}); warm(); Object.defineProperty({target},'{nm}',{{get: undefined}});"),
+        45 => format!("Object.defineProperty({target},'{nm}',{{get(){{ return 'pair{v}'; }}, set(w){{ this._pair{v}=w; }}, configurable:true}}); warm(); Object.defineProperty({target},'{nm}',{{get: undefined, set: undefined}}); warm();"),
         _ => format!("{o}.{nm}='c{v}'; warm(); Object.defineProperty({o},'{nm}',{{configurable:false, enumerable:false}}); delete {o}.{nm};"),
     }
 }
@@ -134,7 +155,20 @@ pub fn generate(rng: &mut Rng, tier: Tier) -> Value {
     let sites = site_defs(rng);
     let site_names: Vec<&'static str> =
         NAMES.iter().copied().filter(|nm| sites.iter().any(|s| s.split('|').next().is_some_and(|h| h.split('_').nth(1) == Some(nm)))).collect();
-    let ops = (0..n).map(|_| gen_op(rng, &site_names)).collect();
+    // receivers per site: 3 sites in 5 see 1..3 receivers (mono- / polymorphic caches), 1 in 5 sees
+    // 4..6 (around the capacity of 4), 1 in 5 all 22 (megamorphic)
+    let recv: Vec<Vec<u32>> = (0..sites.len() + 1)
+        .map(|_| {
+            let k = match rng.below(5) {
+                0..=2 => rng.range(1, 3),
+                3 => rng.range(4, 6),
+                _ => 0,
+            };
+            (0..k).map(|_| if rng.chance(1, 6) { rng.range(17, 21) as u32 } else { rng.below(17) as u32 }).collect()
+        })
+        .collect();
+    let hot: Vec<u32> = recv.iter().flatten().copied().filter(|i| *i < 17).collect();
+    let ops = (0..n).map(|_| gen_op(rng, &site_names, &hot)).collect();
     let sc = Scenario {
         setup: SETUP.to_string(),
         sites,
@@ -143,6 +177,7 @@ pub fn generate(rng: &mut Rng, tier: Tier) -> Value {
         miss_per_mille: *rng.pick(&[0u32, 50, 200, 500, 900]),
         skip_per_mille: *rng.pick(&[0u32, 50, 200, 500, 900]),
         gc_every: *rng.pick(&[0u64, 0, 1, 7, 64]),
+        recv,
     };
     serde_json::to_value(sc).expect("ser")
 }
@@ -155,7 +190,7 @@ enum Ic {
 }
 
 const PROBE: &str = r#"
-(function(){ var all=objs.concat(prims); for (var i=0;i<sites.length;i++){ var rs=[]; for (var j=0;j<all.length;j++){ try { rs.push(sites[i][1](all[j])); } catch(e){ rs.push('!'+e.name); } } print(sites[i][0]+': '+rs.join(' ')); } })();
+(function(){ var every=objs.concat(prims); for (var i=0;i<sites.length;i++){ var all=(typeof receiversOf=='function') ? receiversOf(i, every) : every; var rs=[]; for (var j=0;j<all.length;j++){ try { rs.push(sites[i][1](all[j])); } catch(e){ rs.push('!'+e.name); } } print(sites[i][0]+': '+rs.join(' ')); } })();
 "#;
 
 struct Out {
@@ -186,7 +221,8 @@ fn run_config(sc: &Scenario, ic: Ic, gc: bool) -> Out {
     {
         let (mut ctx, host) = js::new_default_context();
         let sites_src = format!(
-            "var sites=[{}];",
+            "var recv={}; var sites=[{}];",
+            serde_json::to_string(&sc.recv).expect("ser"),
             sc.sites
                 .iter()
                 .map(|s| {
@@ -212,6 +248,12 @@ fn run_config(sc: &Scenario, ic: Ic, gc: bool) -> Out {
         step(PROBE, &mut log, "probe");
         for (i, op) in sc.ops.iter().enumerate() {
             // mutations may legitimately throw (frozen objects...): both sides must agree
+            if op == "RESITE" {
+                // the same access sites as fresh code: empty caches meet the objects as they are now
+                step(&sites_src, &mut log, "sites");
+                step(PROBE, &mut log, "probe");
+                continue;
+            }
             match op.strip_prefix("RAW:") {
                 // top-level declarations (a global `let` shadows a property of the global object)
                 Some(raw) => step(raw, &mut log, "raw-op"),
@@ -297,6 +339,9 @@ pub fn shrink(v: &Value) -> Vec<Value> {
         if sc.sites.len() > 1 {
             let mut s = sc.clone();
             s.sites.remove(i);
+            if i < s.recv.len() {
+                s.recv.remove(i);
+            }
             out.push(s);
         }
     }
@@ -324,7 +369,7 @@ pub const PROP: Prop = Prop {
     generate,
     execute,
     shrink,
-    rule: "one run = one scenario (16 pooled receivers incl. arrays, functions, class instances, null-prototype and arguments objects, and four unique-shape (dictionary) receivers: Math, Array.prototype, a user object pushed into dictionary mode, globalThis + 5 primitive receivers; prototype chains P0<-P1, C<-D, built-in prototypes; 5..11 access sites drawn from get / set / strict-mode set / call / compound / optional / global read / global write / length / receiver-sensitive get / super forms; a history of 6..30 (quick) / 6..60 (thorough) mutations drawn from 42 kinds (this-sensitive accessors, getters on primitives' prototypes, `length` getters, attribute-only changes, top-level lexical declarations shadowing global properties; 8 of them composite, with a warm-up of every site in the middle: install-use-remove-replace, data-to-accessor, prototype swap, shadow/unshadow, global install/remove): add, delete, redefine as accessor / read-only / setter, reorder or shift a prototype's layout, setPrototypeOf, preventExtensions/seal/freeze, dictionary mode, megamorphic storm, shadow/unshadow, pool replacement, global object mutations) executed in 5 configurations: cache off (reference), on, on + collections, buggified, buggified + collections; after every mutation every site runs against every receiver; non-trivial = always (every run compares four cached configurations against the uncached one); distinct = distinct (site count, history length, hit/miss/stale counters of the four configurations)",
+    rule: "one run = one scenario (16 pooled receivers incl. arrays, functions, class instances, null-prototype and arguments objects, and four unique-shape (dictionary) receivers: Math, Array.prototype, a user object pushed into dictionary mode, globalThis + 5 primitive receivers; prototype chains P0<-P1, C<-D, built-in prototypes; 5..11 access sites drawn from get / set / strict-mode set / call / compound / optional / global read / global write / length / receiver-sensitive get / super forms; a history of 6..30 (quick) / 6..60 (thorough) mutations drawn from 46 kinds (this-sensitive accessors, one half of an accessor pair removed and restored, getters on primitives' prototypes, `length` getters, attribute-only changes, top-level lexical declarations shadowing global properties; 8 of them composite, with a warm-up of every site in the middle: install-use-remove-replace, data-to-accessor, prototype swap, shadow/unshadow, global install/remove): add, delete, redefine as accessor / read-only / setter, reorder or shift a prototype's layout, setPrototypeOf, preventExtensions/seal/freeze, dictionary mode, megamorphic storm, shadow/unshadow, pool replacement, global object mutations) executed in 5 configurations: cache off (reference), on, on + collections, buggified, buggified + collections; after every mutation every site runs against its receivers (3 sites in 5 see 1..3 of the 22 receivers, 1 in 5 sees 4..6, 1 in 5 all: a cache holds 4 shapes and switches itself off at the fifth; one step in 14 re-creates the sites as fresh code with empty caches); non-trivial = always (every run compares four cached configurations against the uncached one); distinct = distinct (site count, history length, hit/miss/stale counters of the four configurations)",
     real: &["lexer/parser/compiler/VM/builtins", "shapes, property maps, inline caches", "boa_gc (weak shapes)"],
     stub: &["inline-cache interference (hook H3: forced miss / skipped fill / off)", "collection trigger decision (hook H1)"],
     assumptions: &[
